@@ -78,10 +78,20 @@ class Recorder(HTMLParser):
 
 
 def tokenise(markup):
+    """Reference event stream: html.parser's feed() with its default configuration.  close() is NOT called (the library
+    never calls it: call-site obligation); an unterminated construct at the end of the input stays buffered, i.e. hidden."""
     r = Recorder()
     r.feed(markup)
-    r.close()
     return r.ev
+
+
+def expected(markup):
+    """(visible data, hidden data) of a document: reference events classified by the region spec; every token of the
+    markup that is not visible data (comment text, buffered remainder, attribute values) is expected to be absent."""
+    ev = tokenise(markup)
+    vis, hid = classify(ev)
+    rest = sorted(tokens([markup]) - tokens(vis) - tokens(hid))
+    return ev, vis, hid + rest
 
 
 TOKEN = re.compile(r"(?:VIS|HID)[a-z0-9]+")      # VISaVISb (inline neighbours) splits into two tokens
@@ -165,7 +175,57 @@ def via_epub(markup):
     return "\n".join(f"{ch.text}\n{ch.title}\n{ch.tables!r}" for ch in book.chapters)
 
 
-WRAPPERS = [("read_html", via_html), ("read_mhtml", via_mhtml), ("msg._html_to_text", via_msg), ("read_epub chapter", via_epub)]
+HINT = re.compile(r"<(html|head|body|p|div|br|span|table|tr|td|style|script)>", re.IGNORECASE)
+
+
+def is_html_body(body):
+    """Reference notion of an HTML mail body (position independent): an element of the hint vocabulary, <html or <body
+    occurs anywhere, or the body starts with a doctype."""
+    low = body.lstrip().lower()
+    return low.startswith("<!doctype") or "<html" in low or "<body" in low or HINT.search(body) is not None
+
+
+_REAL_MSG = {}
+ROUTE_SAMPLE = None      # documents sent through the real MSG reader by the bulk search (the rest: emulated routing statement)
+
+
+def via_msg_route(markup, real_reader=None):
+    """The body as read_msg_format_mail routes it: the real reader on the repository's basic_email.msg fixture with only the
+    body string substituted (directed documents and a sample of the grammar: ~15 ms per call); otherwise, or without the
+    fixture, the routing statement `_html_to_text(b) if _looks_like_html(b) else b` with the real helper functions."""
+    import os
+    from sharepoint2text.parsing.extractors.mail import msg_email_extractor as mod
+    fixture = os.path.join(os.path.dirname(os.path.dirname(os.path.dirname(os.path.dirname(os.path.abspath(mod.__file__))))),
+                           "tests", "resources", "mails", "basic_email.msg")
+    if real_reader is None:
+        real_reader = ROUTE_SAMPLE is None or markup in ROUTE_SAMPLE
+    if not real_reader or not os.path.exists(fixture) or not hasattr(mod, "MsOxMessage"):
+        return mod._html_to_text(markup) if mod._looks_like_html(markup) else markup
+    real = mod.MsOxMessage
+
+    class BodySubstituted:
+        def __init__(self, stream):
+            if "m" not in _REAL_MSG:
+                _REAL_MSG["m"] = real(stream)      # the fixture is parsed once; only `body` differs per call
+            self._real = _REAL_MSG["m"]
+
+        def __getattr__(self, name):
+            return getattr(self._real, name)
+
+        @property
+        def body(self):
+            return markup
+    mod.MsOxMessage = BodySubstituted
+    try:
+        with open(fixture, "rb") as fh:
+            mail = next(mod.read_msg_format_mail(io.BytesIO(fh.read()), path=fixture))
+    finally:
+        mod.MsOxMessage = real
+    return mail.body_plain
+
+
+WRAPPERS = [("read_html", via_html), ("read_mhtml", via_mhtml), ("msg._html_to_text", via_msg),
+            ("msg.read_msg_format_mail body", via_msg_route), ("read_epub chapter", via_epub)]
 
 
 def judge(observed, vis, hid):
@@ -177,23 +237,53 @@ def judge(observed, vis, hid):
     return None
 
 
-def check_markup(markup, only=None):
+def is_extraction_error(e):
+    try:
+        from sharepoint2text.parsing.exceptions import ExtractionError
+        return isinstance(e, ExtractionError)
+    except Exception:  # noqa
+        return False
+
+
+def deep_docs():
+    """Element nesting deeper than the interpreter's recursion limit (the tree walker is recursive)."""
+    return ["<div>" * n + "<script>var HIDs = 1;</script><p>VISa</p><noscript>HIDn</noscript>" + "</div>" * n + "<p>VISb</p>" for n in (1200, 3000)]
+
+
+def builder_of(markup):
+    """How to rebuild a document that is too long to store verbatim."""
+    for i, d in enumerate(deep_docs()):
+        if d == markup:
+            return {"fn": "deep_docs", "index": i}
+    for i, d in enumerate(long_prefix_docs()):
+        if d == markup:
+            return {"fn": "long_prefix_docs", "index": i}
+    return None
+
+
+def check_markup(markup, only=None, skip=()):
     """-> failure dict or None.  Expected sets: html.parser's own events classified by the spec."""
-    ev = tokenise(markup)
-    vis, hid = classify(ev)
+    ev, vis, hid = expected(markup)
     body = markup
     for name, fn in WRAPPERS:
         if only and not any(o in name for o in only):
             continue
+        if any(o in name for o in skip):
+            continue        # recorded finding (known_findings.json) for this document through this entry point: replayed separately
         if "<title>" in markup and "epub" not in name:
             continue        # only the EPUB chapter keeps the <title> text with the chapter
+        if "read_msg_format_mail" in name and not is_html_body(markup):
+            continue        # a body without any HTML evidence is legitimately plain text
         try:
             out = fn(body)
         except Exception as e:  # noqa
+            if is_extraction_error(e):
+                continue        # the reader reported a failure (C01's surface): there is no extracted text to judge
             out = f"<{type(e).__name__}: {e}>"
         bad = judge(out, vis, hid)
         if bad:
-            return {"reproduced": True, "target": name, "inputs": {"markup": markup, "events": ev},
+            return {"reproduced": True, "target": name, "inputs": {"markup": markup if len(markup) < 4000 else markup[:300] + " ...", "events": ev[:40],
+                                                                  "markup_builder": builder_of(markup)},
                     "expected": f"every visible token {sorted(tokens(vis))} in the text, no removed token {sorted(tokens(hid))}",
                     "observed": f"{bad}; text={out[:300]!r}"}
     return None
@@ -203,7 +293,46 @@ def check_markup(markup, only=None):
 VALID = re.compile(r"^[a-zA-Z][-a-zA-Z0-9]*$")
 
 
-def witness_events(w, kind, t_override=None):
+def new_parser(which):
+    if which == "html":
+        from sharepoint2text.parsing.extractors.html_extractor import _HtmlTreeBuilder
+        return _HtmlTreeBuilder()
+    from sharepoint2text.parsing.extractors.epub_extractor import _XhtmlTextExtractor
+    return _XhtmlTextExtractor()
+
+
+def reach_prefix(which, w, max_len=4):
+    """Breadth-first search for a short event sequence that drives a REAL parser object from its initial state into the
+    witness pre-state (the scalar removal-tracking fields of the model: skip_depth, remembered tag, ...) while the region
+    spec is in the witness's rho.  -> list of events or None."""
+    want = {k: v for k, v in (w.get("self") or {}).items()
+            if isinstance(v, (int, str)) and not isinstance(v, bool) and ("skip" in k.lower() or "tag" in k.lower() or "depth" in k.lower())}
+    on, T, n = bool(w.get("rho_on")), w.get("rho_tag") or "", int(w.get("rho_n") or 0)
+    rho_want = (T, n) if on else None
+    tags = [t for t in dict.fromkeys([T] + [v for v in want.values() if isinstance(v, str)] + [w.get("tag"), "noscript", "object"])
+            if isinstance(t, str) and t]
+    alphabet = [(k, t) for t in tags for k in ("S", "E")]
+    frontier = [[]]
+    for _depth in range(max_len + 1):
+        nxt = []
+        for seq in frontier:
+            p = new_parser(which)
+            rho = None
+            try:
+                for k, t in seq:
+                    (p.handle_starttag(t, []) if k == "S" else p.handle_endtag(t))
+                    rho = step(rho, (k, t))
+            except Exception:  # noqa
+                continue
+            if rho == rho_want and all(getattr(p, f, None) == v for f, v in want.items()):
+                return seq
+            if len(seq) < max_len:
+                nxt.extend(seq + [e] for e in alphabet)
+        frontier = nxt
+    return None
+
+
+def witness_events(w, kind, t_override=None, prefix=None):
     on, T, n = bool(w.get("rho_on")), w.get("rho_tag") or "", int(w.get("rho_n") or 0)
     tag = w.get("tag") if isinstance(w.get("tag"), str) else "x"
     if t_override is not None and on:
@@ -216,7 +345,14 @@ def witness_events(w, kind, t_override=None):
     for f, v in sorted((w.get("self") or {}).items()):
         if "tag" in f.lower() and isinstance(v, str) and not on and v in REMOVE and v not in VOID:
             ev += [("S", v), ("D", "HIDold"), ("E", v)]
-    if on:
+    if prefix is not None:
+        ev = ev[:4]
+        for e in prefix:
+            ev.append(e)
+            rho = step(rho, e)
+            if rho is not None:
+                ev.append(("D", "HIDpfx"))
+    elif on:
         if not (T in REMOVE and T not in VOID) or n < 0 or n > 6:
             return None
         for _ in range(n + 1):
@@ -256,9 +392,16 @@ def sanitise(events, T):
 
 def replay_witness(w, kind, which):
     tried = []
-    # (a) function level, exact witness
-    ev = witness_events(w, kind)
-    if ev is not None:
+    # (a) function level, exact witness: standard prefix first, then a searched prefix that reaches the model's pre-state
+    for attempt in ("standard", "searched"):
+        prefix = None
+        if attempt == "searched":
+            prefix = reach_prefix(which, w)
+            if prefix is None:
+                break
+        ev = witness_events(w, kind, prefix=prefix)
+        if ev is None:
+            continue
         vis, hid = classify(ev)
         try:
             out = run_handlers(which, ev)
@@ -266,6 +409,17 @@ def replay_witness(w, kind, which):
             out = f"<{type(e).__name__}: {e}>"
         bad = judge(out, vis, hid)
         tried.append(("handlers", ev))
+        if bad and prefix is not None:
+            cls = "html_extractor._HtmlTreeBuilder" if which == "html" else "epub_extractor._XhtmlTextExtractor"
+            res = {"reproduced": True, "target": f"{cls} handlers called with a searched prefix + the witness event",
+                   "inputs": {"events": ev, "witness": w}, "expected": f"visible {sorted(tokens(vis))} stored, removed {sorted(tokens(hid))} not stored (region spec)",
+                   "observed": bad}
+            mk = to_markup(sanitise(ev, w.get("rho_tag") or ""))
+            if tokenise(mk) == sanitise(ev, w.get("rho_tag") or ""):
+                api = check_markup(mk, only=("read_epub", ) if which == "epub" else ("read_html", "read_mhtml", "msg"))
+                if api:
+                    res["api_level"] = api
+            return res
         if bad:
             cls = "html_extractor._HtmlTreeBuilder" if which == "html" else "epub_extractor._XhtmlTextExtractor"
             res = {"reproduced": True, "target": f"{cls} handlers called with the witness events", "inputs": {"events": ev, "witness": w},
@@ -318,16 +472,117 @@ def grammar():
              # input ending inside an unterminated comment / conditional comment / declaration: its content stays hidden
              "<p>VISa</p><p>VISb</p><!-- HIDa", "<p>VISa</p><!--[if mso]><p>HIDa</p>", "<p>VISa</p><p>VISb</p><!-- HIDa <b>HIDb</b>",
              "<p>VISa</p><noscript>HIDa", "<p>VISa</p><script>HIDa"]
+    # a textual "<r ...>" that the tokeniser does NOT treat as the start of element r (self-closing form, inside a comment,
+    # inside an attribute value, inside a CDATA section / another raw-text element), visible text, then a real element r
+    for r in removable:
+        for fake in (f"<{r} src=x/>", f"<!-- <{r} src=x> -->", f"<a title='<{r}>'>VISl</a>", f"<![CDATA[<{r}>]]>",
+                     f"<style>/* <{r}> */</style>" if r != "style" else f"<script>// <{r}></script>"):
+            docs.append(f"<p>VISa</p>{fake}<p>VISb</p><{r}>HIDa</{r}><p>VISc</p>")
+            docs.append(f"<p>VISa</p>{fake}<p>VISb</p><{r} type=x>HIDa</{r} ><p>VISc</p><!-- HIDb -->VISd")
+        docs.append(f"<p>VISa</p><{r}>HIDa</{r}><p>VISb</p><!-- </{r}> --><p>VISc</p>")
+        # a stray extra end tag of an element that was removed before, then a new region
+        docs.append(f"<p>VISa</p><{r}>HIDa</{r}></{r}><p>VISb</p><{r}>HIDb</{r}><p>VISc</p>")
+        docs.append(f"<p>VISa</p></{r}><p>VISb</p><{r}>HIDb</{r}><p>VISc</p></{r}><p>VISd</p>")
+    # textual comment / CDATA delimiters where the tokeniser does not see a comment (raw text, attribute values)
+    docs += ['<script>var s = "<!--";</script><p>VISa</p><!-- HIDa --><p>VISb</p>', "<style>/* <!-- */</style><p>VISa</p><!-- HIDa --><p>VISb</p>",
+             "<p title='<!--'>VISa</p><p>VISb</p><!-- HIDa --><p>VISc</p>", '<script>if (a --> b) {}</script><p>VISa</p><!-- HIDa --><p>VISb</p>',
+             "<!-- HIDa --><p>VISa</p><script>// --> HIDb</script><p>VISb</p>", "<p>VISa</p><!-- HIDa -- HIDb --><p>VISb</p>", "<p>VISa</p><!--HIDa--!><p>VISb</p>"]
+    docs += long_prefix_docs()
+    docs += deep_docs()
     return docs
 
 
-def search(only=None, limit=None):
+def sequences():
+    """Pairs of documents processed one after the other (two chapters of one EPUB; two calls of the other entry points): every
+    document is judged on its own -- whatever the first one leaves open (region, raw-text mode, table cell, unterminated
+    comment) must not reach the second."""
+    firsts = ["<p>VISa</p><noscript>HIDa", "<p>VISa</p><script>HIDa", "<p>VISa</p><object><object>HIDa</object>", "<p>VISa</p><table><tr><td>cell",
+              "<p>VISa</p><!-- HIDa", "<p>VISa</p><iframe><p>HIDa</p>"]
+    seconds = ["<p>VISb</p><noscript>HIDb</noscript><p>VISc</p>", "VISb<p>VISc</p><!-- HIDb -->"]
+    return [[a, b] for a in firsts for b in seconds]
+
+
+def via_epub_book(docs):
+    from sharepoint2text.parsing.extractors.epub_extractor import read_epub
+    buf = io.BytesIO()
+    with zipfile.ZipFile(buf, "w") as z:
+        z.writestr("mimetype", "application/epub+zip")
+        z.writestr("META-INF/container.xml",
+                   '<?xml version="1.0"?><container version="1.0" xmlns="urn:oasis:names:tc:opendocument:xmlns:container">'
+                   '<rootfiles><rootfile full-path="OEBPS/content.opf" media-type="application/oebps-package+xml"/></rootfiles></container>')
+        items = "".join(f'<item id="c{i}" href="c{i}.xhtml" media-type="application/xhtml+xml"/>' for i in range(len(docs)))
+        refs = "".join(f'<itemref idref="c{i}"/>' for i in range(len(docs)))
+        z.writestr("OEBPS/content.opf",
+                   '<?xml version="1.0"?><package xmlns="http://www.idpf.org/2007/opf" version="3.0" unique-identifier="id">'
+                   '<metadata xmlns:dc="http://purl.org/dc/elements/1.1/"><dc:title>T</dc:title><dc:identifier id="id">x</dc:identifier></metadata>'
+                   f'<manifest>{items}</manifest><spine>{refs}</spine></package>')
+        for i, d in enumerate(docs):
+            z.writestr(f"OEBPS/c{i}.xhtml", d)
+    book = next(read_epub(io.BytesIO(buf.getvalue()), path="t.epub"))
+    by_href = {ch.href.split("/")[-1]: f"{ch.text}\n{ch.title}\n{ch.tables!r}" for ch in book.chapters}
+    return [by_href.get(f"c{i}.xhtml", "<no chapter extracted>") for i in range(len(docs))]
+
+
+def check_sequence(docs, only=None):
+    for name, fn in WRAPPERS:
+        if only and not any(o in name for o in only):
+            continue
+        try:
+            outs = via_epub_book(docs) if "epub" in name else [fn(d) for d in docs]
+        except Exception as e:  # noqa
+            if is_extraction_error(e):
+                continue
+            outs = [f"<{type(e).__name__}: {e}>"] * len(docs)
+        for i, (d, out) in enumerate(zip(docs, outs)):
+            if "read_msg_format_mail" in name and not is_html_body(d):
+                continue
+            ev, vis, hid = expected(d)
+            bad = judge(out, vis, hid)
+            if bad:
+                return {"reproduced": True, "target": name + f" (document {i + 1} of {len(docs)} processed in sequence)",
+                        "inputs": {"documents": docs}, "expected": f"document {i + 1} on its own: visible {sorted(tokens(vis))}, removed {sorted(tokens(hid))}",
+                        "observed": f"{bad}; text={out[:300]!r}"}
+    return None
+
+
+def long_prefix_docs():
+    """HTML fragments (no <html>/<body>) whose first element of the hint vocabulary comes after a long removed prefix
+    (conditional comment + style block with attributes, as mail generators emit): "whatever the element contains" includes
+    its length."""
+    out = []
+    for n in (0, 50, 1000, 5000, 70000):
+        css = (".HIDcss td { font-family: Calibri }\n" * (n // 36 + 1))[:max(n, 36)]
+        out.append("<!--[if gte mso 9]><xml>HIDx</xml><![endif]-->\n<style type=\"text/css\">\n" + css + "</style>\n"
+                   "<div>VISa</div>\n<noscript><img src=p.gif>HIDn</noscript>\n<p>VISb</p>\n<script>var HIDs = 1;</script>\n"
+                   "<!-- HIDt -->\n<div>VISc</div>\n")
+        out.append(" " * n + "<!-- " + "HIDpad " * (n // 7) + "-->\n<p>VISa</p><script type=x>HIDa</script><p>VISb</p>")
+        out.append("<p>VISa</p>" + "<!-- " + "HIDpad " * (n // 7) + "-->" + "<noscript>" + "<img src=x>" * (n // 11) + "HIDa</noscript><p>VISb</p>")
+    return out
+
+
+def search(only=None, limit=None, known=()):
+    global ROUTE_SAMPLE
     n = 0
-    for d in grammar():
+    docs = grammar()
+    ROUTE_SAMPLE = set(docs[::8]) | set(docs[-160:])
+    skip_for = {}
+    for k in known:          # [{"fn":..., "index":..., "only": [...]}]: documents of recorded findings
+        try:
+            for d_ in globals()[k["fn"]]():      # the whole family the recorded document belongs to
+                skip_for[d_] = tuple(k.get("only") or ("",))
+        except Exception:  # noqa
+            pass
+    for d in docs:
         n += 1
         if limit and n > limit:
             break
-        bad = check_markup(d, only=only)
+        bad = check_markup(d, only=only, skip=skip_for.get(d, ()))
+        if bad:
+            bad["tried"] = n
+            return bad
+    for seq in sequences():
+        n += 1
+        bad = check_sequence(seq, only=only)
         if bad:
             bad["tried"] = n
             return bad
@@ -344,12 +599,36 @@ def find(req):
         r = replay_witness(w, kind, which)
         if r:
             return r
-    only = ("read_epub",) if which == "epub" and "epub_extractor" in ob else (("read_html", "read_mhtml", "msg") if "html_extractor" in ob else None)
-    return search(only=only)
+    if "epub_extractor" in ob:
+        only = ("read_epub",)
+    elif "msg_email_extractor" in ob:
+        only = ("msg",)
+    elif "mhtml_extractor" in ob:
+        only = ("read_mhtml",)
+    elif "html_extractor" in ob:
+        only = ("read_html", "read_mhtml", "msg")
+    else:
+        only = None
+    kw = (req.get("witness") or {}) if req.get("known_finding") else {}
+    if kw.get("markup_builder"):
+        d = globals()[kw["markup_builder"]["fn"]]()[kw["markup_builder"]["index"]]
+        return check_markup(d, only=tuple(kw.get("only") or ()) or None) or {"reproduced": False, "note": "recorded document now agrees with the region spec"}
+    if "msg_email_extractor" in ob:
+        for d in long_prefix_docs() + deep_docs():          # directed: evidence position / removed-content length / nesting depth
+            bad = check_markup(d, only=only)
+            if bad:
+                return bad
+    return search(only=only, known=req.get("known_docs") or ())
 
 
 def rerun(stored):
     inp = stored.get("inputs") or {}
+    if inp.get("documents"):
+        r = check_sequence(inp["documents"])
+        return r or {"reproduced": False, "note": "stored document sequence now agrees with the region spec"}
+    if inp.get("markup_builder"):
+        d = globals()[inp["markup_builder"]["fn"]]()[inp["markup_builder"]["index"]]
+        return check_markup(d) or {"reproduced": False, "note": "stored document now agrees with the region spec"}
     if inp.get("markup"):
         r = check_markup(inp["markup"])
         return r or {"reproduced": False, "note": "stored markup now agrees with the region spec"}
